@@ -52,12 +52,13 @@ type Op struct {
 	Fn string `json:"f"` // enc new chk val chkval seed seed2 str strrange ident keepdump
 	L  int64  `json:"l,omitempty"`
 
-	E     string `json:"e,omitempty"`  // entropy, hex
-	ENil  bool   `json:"en,omitempty"` // entropy is a nil slice
-	ESegs []Seg  `json:"es,omitempty"`
-	Buf   int    `json:"buf,omitempty"` // >0: use (and keep) caller-owned buffer number Buf for the entropy
-	Cap   int    `json:"cap,omitempty"` // >0: give the entropy slice Cap bytes of spare capacity filled with 0xA5 and report them too
-	Arena bool   `json:"ar,omitempty"`  // pass the entropy in a caller-owned buffer that is REUSED (overwritten in place) by every Arena call of the same length, as a caller recycling its buffer would
+	E       string `json:"e,omitempty"`  // entropy, hex
+	ENil    bool   `json:"en,omitempty"` // entropy is a nil slice
+	ESegs   []Seg  `json:"es,omitempty"`
+	Buf     int    `json:"buf,omitempty"` // >0: use (and keep) caller-owned buffer number Buf for the entropy
+	Cap     int    `json:"cap,omitempty"` // >0: give the entropy slice Cap bytes of spare capacity filled with 0xA5 and report them too
+	Arena   bool   `json:"ar,omitempty"`  // pass the entropy in a caller-owned buffer that is REUSED (overwritten in place) by every Arena call of the same length, as a caller recycling its buffer would
+	SlabOff int    `json:"so,omitempty"`  // conc mode: entropy is a window of the shared slab (offset+1)
 
 	N int64 `json:"n,omitempty"` // word count
 
@@ -169,6 +170,10 @@ type Conc struct {
 	// created (a history: failing calls, unsupported values, first uses); its
 	// results are reported with G == -1.
 	Pre []Op `json:"pre,omitempty"`
+	// Slab is ONE caller-owned buffer shared by all workers; an op with SlabOff > 0
+	// passes the window Slab[SlabOff-1 : SlabOff-1+len(E)] (after copying E into it
+	// before the barrier) as its entropy. Windows of different ops are disjoint.
+	Slab int `json:"slab,omitempty"` // size in bytes
 	// Loops > 1: every worker runs its op list Loops times. The first pass is
 	// recorded call by call; for the later passes the child only keeps, per op, one
 	// sample of every DISTINCT observation (result, error, panic) with a count.
